@@ -254,6 +254,36 @@ def h_latexdefs(e, scope, which):
     e.nontriv()
 
 
+def h_globalprefix(e, scope, form):
+    """\\global in front of a definition makes it a global one (it survives the scope), like \\gdef"""
+    doc = TeXDocument()
+    o, c = SCOPES[scope]
+    p, q = e.char('p', 97, 122), e.char('q', 97, 122)
+    if form == 'def':
+        inner = ['\\global\\def\\vqa{', q, '}']
+    elif form == 'let':
+        inner = ['\\def\\vqb{', q, '}\\global\\let\\vqa\\vqb ']
+    else:
+        inner = ['\\gdef\\vqa{', q, '}']
+    parts = ['\\def\\vqa{', p, '}', o] + inner + [c, '[\\vqa]']
+    chars = []
+    for x in parts:
+        chars.extend(api.chars(x))
+    tex = TeX(doc)
+    tex.input(Src(chars))
+    try:
+        out = tex.parse()
+    except (KeyError, ValueError, TypeError, IndexError, AttributeError) as ex:
+        e.fail_exception(ex)
+        return
+    got = [ch for ch in api.chars(api.text_of(out.textContent)) if not eq(ch, ' ') and not eq(ch, '\n')]
+    e.observe(api.cat(got))
+    ok = len(got) == 3 and api.all_([eq(got[0], '['), eq(got[1], q), eq(got[2], ']')])
+    e.check(ok, 'a definition made with %s inside %s is not in force after the scope closed' % ('\\gdef' if form == 'gdef' else '\\global\\' + form, scope),
+            'global-prefix:' + form if form != 'gdef' else 'meaning')
+    e.nontriv()
+
+
 # ------------------------------------------------------------------------------------------- (c) API histories
 def h_api(e, nframes, nops):
     ctx = Context(load=True)
@@ -375,6 +405,8 @@ def jobs(tier, seed):
                     continue
                 J.append(dict(harness='h_scopes', params=dict(outer=outer, inner=inner, lo=0, hi=5, unclosed=u), label='unclosed %d in %s>%s' % (u, outer, inner), no_twin=True))
     for scope in ('brace', 'begingroup', 'env'):
+        for form in ('gdef', 'def', 'let'):
+            J.append(dict(harness='h_globalprefix', params=dict(scope=scope, form=form), label='global definition by %s in %s' % (form, scope), no_twin=True))
         for which in ('renewcommand', 'newcommand', 'newenvironment'):
             J.append(dict(harness='h_latexdefs', params=dict(scope=scope, which=which), label='%s in %s' % (which, scope), no_twin=True))
     for nf in (0, 1, 2, 3):
